@@ -652,9 +652,14 @@ class Visitor:
         Parameters:
             node: The node to visit.
         """
-        if isinstance(node.parent, (ast.Module, ast.ClassDef)):  # type: ignore[attr-defined]
-            condition = safe_get_condition(node.test, parent=self.current, log_level=None)
-            if str(condition) in {"typing.TYPE_CHECKING", "TYPE_CHECKING"}:
-                self.type_guarded = True
-        self.generic_visit(node)
-        self.type_guarded = False
+        # Only the body of `if TYPE_CHECKING:` is type-guarded (not its `else` branch),
+        # wherever the `if` is written, and leaving an `if` restores the previous state
+        # instead of clearing it.
+        previous = self.type_guarded
+        condition = safe_get_condition(node.test, parent=self.current, log_level=None)
+        type_checking = str(condition) in {"typing.TYPE_CHECKING", "TYPE_CHECKING"}
+        body = {id(child) for child in node.body}
+        for child in ast_children(node):
+            self.type_guarded = previous or (type_checking and id(child) in body)
+            self.visit(child)
+        self.type_guarded = previous
